@@ -715,45 +715,55 @@ def _work(task):
     return {'steps': out}
 
 
+CLOCK_SITES = ('stale@mtime-not-advanced', 'stale@dir-mtime-not-advanced')
+
+
 def _families(tier):
+    """(level name, alphabet, exact depth of the maximal histories, max clock deviations);
+    simplest first.  Every history of smaller depth is a prefix of one of these."""
     if tier == 'quick':
-        return [('full16/depth<=2/dev<=1', FULL, 2, 1), ('core8/depth<=3/dev=0', CORE, 3, 0)]
-    return [('full16/depth<=2/dev<=1', FULL, 2, 1), ('full16/depth<=3/dev=0', FULL, 3, 0),
-            ('full16/depth<=3/dev<=1', FULL, 3, 1), ('core8/depth<=4/dev=0', CORE, 4, 0)]
+        return [('full16/depth<=1/dev<=1', FULL, 1, 1), ('full16/depth<=2/dev<=1', FULL, 2, 1),
+                ('core8/depth<=3/dev=0', CORE, 3, 0)]
+    return [('full16/depth<=1/dev<=1', FULL, 1, 1), ('full16/depth<=2/dev<=1', FULL, 2, 1),
+            ('full16/depth<=3/dev=0', FULL, 3, 0), ('full16/depth<=3/dev<=1', FULL, 3, 1),
+            ('core8/depth<=4/dev=0', CORE, 4, 0)]
+
+
+def _oracles_for(ctx, snaps, table):
+    """Extend `table` (snapshot key -> fresh-process observation) to cover `snaps`."""
+    todo = sorted(k for k in snaps if k not in table)
+    otasks = [{'key': k, 'snapshot': snaps[k]} for k in todo]
+    pres = pool.run(otasks, 'jv.props.c09:_oracle_task', seed=ctx.seed, deadline=ctx.deadline,
+                    tag='c09o')
+    ctx.absorb(pres, 'oracle')
+    for i, k in enumerate(todo):
+        if i in pres.results:
+            table[k] = pres.results[i]
+    return all(k in table for k in snaps)
 
 
 def run(ctx):
     global _ORACLE
-    fams = _families(ctx.tier)
+    cpu0 = os.times()
     plans = []
     seen_hist = set()
-    for name, alpha, depth, dev in fams:
+    for name, alpha, depth, dev in _families(ctx.tier):
         hs = []
         for h in enumerate_histories(alpha, depth, dev):
             if tuple(h) not in seen_hist:
                 seen_hist.add(tuple(h))
                 hs.append(h)
         plans.append((name, hs))
-    # --- oracle table over every reachable snapshot (memoised on the snapshot)
-    snaps = {}
-    for _name, hs in plans:
-        for h in hs:
-            for _rec, snap, _seg in walk(h):
-                snaps.setdefault(snap_key(snap), snap)
-    keys = sorted(snaps)
-    otasks = [{'key': k, 'snapshot': snaps[k]} for k in keys]
-    pres = pool.run(otasks, 'jv.props.c09:_oracle_task', seed=ctx.seed, deadline=ctx.deadline,
-                    tag='c09o')
-    ctx.absorb(pres, 'oracle')
-    if pres.skipped or pres.crashed or len(pres.results) != len(otasks):
-        ctx.harness_error('oracle table incomplete (%d of %d snapshots)'
-                          % (len(pres.results), len(otasks)))
-        return
-    _ORACLE = {keys[i]: pres.results[i] for i in range(len(keys))}
-    oracle_classes = len({snap_key(v) for v in _ORACLE.values()})
-    ctx.note('oracle table: %d snapshots, %d distinct observations, %.0f s'
-             % (len(keys), oracle_classes, time.time() - ctx.t0))
-    _init()     # warm up once; the pool's workers are forked from this process
+    # Development aid only (never set by bin/check): keep oracle observations of one jedi tree
+    # between runs.  Unset, every run asks fresh processes for every snapshot.
+    dev_cache = os.environ.get('JV_C09_DEV_ORACLE_CACHE')
+    table = {}
+    if dev_cache and os.path.exists(dev_cache):
+        with open(dev_cache) as f:
+            table = json.load(f).get(os.path.realpath(boot.REPO), {})
+        ctx.note('DEV: %d oracle observations taken from %s' % (len(table), dev_cache))
+    n_from_dev_cache = len(table)
+    used_keys = set()
 
     prefixes = {}        # prefix id -> digest of the observation (all runs must agree)
     verdicts = {}        # prefix id -> (site, detail) of the first run that judged it
@@ -765,11 +775,39 @@ def run(ctx):
     obs_classes = set()
     n_dev = 0
     runs = 0
+    stop = None
     for name, hs in plans:
+        if stop:
+            exhaustive = False
+            ctx.note('level %s not explored: %s' % (name, stop))
+            continue
         if ctx.time_left() < 10:
             exhaustive = False
             ctx.note('level %s not started (time cap)' % name)
             continue
+        # oracle: a fresh process per file-system snapshot not seen before
+        snaps = {}
+        for h in hs:
+            for _rec, snap, _seg in walk(h):
+                snaps.setdefault(snap_key(snap), snap)
+        if not _oracles_for(ctx, snaps, table):
+            if ctx.time_left() < 10:
+                exhaustive = False
+                ctx.note('level %s: oracle table not finished (time cap)' % name)
+            else:
+                ctx.harness_error('level %s: oracle table incomplete' % name)
+            break
+        used_keys.update(snaps)
+        if dev_cache:
+            allt = {}
+            if os.path.exists(dev_cache):
+                with open(dev_cache) as f:
+                    allt = json.load(f)
+            allt[os.path.realpath(boot.REPO)] = table
+            with open(dev_cache, 'w') as f:
+                json.dump(allt, f)
+        _ORACLE = table
+        _init()     # warm up once; the pool's workers are forked from this process
         tasks = [{'events': h, 'n': i} for i, h in enumerate(hs)]
         pres = pool.run(tasks, 'jv.props.c09:_work', init='jv.props.c09:_init', seed=ctx.seed,
                         deadline=ctx.deadline, tag='c09')
@@ -811,6 +849,12 @@ def run(ctx):
                      % (name, len(pres.skipped), len(tasks)))
         else:
             done_levels.append('%s: %d maximal histories' % (name, len(tasks)))
+        ctx.note('level %s done at %.0f s: %d histories judged so far, %d differ from the oracle'
+                 % (name, time.time() - ctx.t0, len(prefixes), len(verdicts)))
+        unexplained = sorted(p_ for p_, v in verdicts.items() if v[0] not in CLOCK_SITES)
+        if unexplained or any(v['site'].startswith('ProcessDied') for v in ctx.violations):
+            stop = ('counterexamples without a clock explanation exist at level %s (e.g. %s); '
+                    'the shortest ones are reported' % (name, (unexplained or ['a dead process'])[0]))
     for pid_ in sorted(verdicts, key=lambda x: (x.count('.'), x.count('~'), x)):
         site, detail = verdicts[pid_]
         ctx.violation(site, pid_, detail, {'events': detail['history']})
@@ -821,7 +865,9 @@ def run(ctx):
             ctx.note(msg)      # a consequence of the violations reported above
         else:
             ctx.harness_error(msg)
+    cpu1 = os.times()
     ctx.coverage.update({
+        'cpu_s': round(sum(cpu1[:4]) - sum(cpu0[:4]), 1),
         'states': len(prefixes), 'transitions': transitions, 'evaluations': transitions,
         'distinct_nontrivial': len(obs_classes),
         'rule': 'state = distinct history (event sequence incl. clock answers) whose last step '
@@ -829,8 +875,10 @@ def run(ctx):
                 'distinct_nontrivial = distinct (file-system snapshot, observation vector) pairs '
                 'seen in the histories',
         'histories_executed': runs, 'histories_with_clock_deviation': n_dev,
-        'distinct_fs_snapshots': len(keys), 'fresh_process_oracles': len(keys),
-        'distinct_oracle_observations': oracle_classes,
+        'distinct_fs_snapshots': len(used_keys),
+        'fresh_process_oracles': len(used_keys),
+        'dev_oracle_cache_entries_reused': n_from_dev_cache,
+        'distinct_oracle_observations': len({snap_key(table[k]) for k in used_keys}),
         'levels_completed': done_levels, 'exhaustive': exhaustive,
         'event_hits': dict(sorted(event_hits.items())),
         'events_never_enabled': sorted(set(FULL) - {split_event(e)[0] for e in event_hits}),
